@@ -417,6 +417,19 @@ func genConc(prop string, seed uint64, tier string) *ConcScenario {
 		if g.r.Bool(0.3) {
 			ph.Delays = append(ph.Delays, DelayCfg{Task: g.r.Intn(nt), AtStep: 1 + g.r.Intn(40)})
 		}
+		stallP := 0.1
+		if prop == "C13" {
+			stallP = 0.35
+		}
+		if prop != "C16" && prop != "C14" && g.r.Bool(stallP) {
+			// slow node: one task is frozen at a random step until nobody else
+			// can make progress, then released (faults stop; all calls must return)
+			st := &StallCfg{Task: g.r.Intn(nt), AtStep: 1 + g.r.Intn(60), Resume: true}
+			if g.r.Bool(0.25) {
+				st.AtStep = 1 + g.r.Intn(400)
+			}
+			ph.Stall = st
+		}
 		sc.Phases = append(sc.Phases, ph)
 	}
 	switch prop {
